@@ -59,6 +59,9 @@ struct NodeUnderTest {
 	_chain_adapter: Arc<ChainToPoolAndNetAdapter<PoolToChainAdapter, PoolToNetAdapter>>,
 	/// the adapters hold Weak references only
 	_peers: Arc<grin_p2p::Peers>,
+	/// the node's api objects (api/src/foreign.rs, owner.rs), as servers/src/grin/server.rs hands them the Weak refs
+	foreign: grin_api::Foreign<PoolToChainAdapter, PoolToNetAdapter>,
+	owner: grin_api::Owner,
 }
 
 fn mk_node(dir: &str, genesis: &Block, stem_probability: u8) -> NodeUnderTest {
@@ -94,7 +97,9 @@ fn mk_node(dir: &str, genesis: &Block, stem_probability: u8) -> NodeUnderTest {
 	sync.update(SyncStatus::NoSync);
 	let recv = NetToChainAdapter::new(sync.clone(), chain.clone(), pool.clone(), grin_servers::ServerConfig::default(), vec![]);
 	recv.init(peers.clone());
-	NodeUnderTest { chain, pool, net, recv, sync, dcfg, _chain_adapter: chain_adapter, _peers: peers }
+	let foreign = grin_api::Foreign::new(Arc::downgrade(&chain), Arc::downgrade(&pool), Arc::downgrade(&sync));
+	let owner = grin_api::Owner::new(Arc::downgrade(&chain), Arc::downgrade(&peers), Arc::downgrade(&sync));
+	NodeUnderTest { chain, pool, net, recv, sync, dcfg, _chain_adapter: chain_adapter, _peers: peers, foreign, owner }
 }
 
 fn peer_info(port: u16) -> PeerInfo {
@@ -125,6 +130,17 @@ enum Op {
 	TotalDiff,
 	PoolSize,
 	ValidateFast,
+	ApiTip,
+	ApiHeader(u64),
+	ApiBlock(u64),
+	ApiKernel(usize),
+	ApiPage,
+	ApiPmmr,
+	ApiPoolInfo,
+	ApiPush(usize),
+	OwnerStatus,
+	OwnerValidate,
+	OwnerCompact,
 }
 
 impl Op {
@@ -146,6 +162,17 @@ impl Op {
 			Op::TotalDiff => vec!["NetToChainAdapter::total_difficulty"],
 			Op::PoolSize => vec!["NetToChainAdapter::get_transaction"],
 			Op::ValidateFast => vec!["Chain::validate"],
+			Op::ApiTip => vec!["api::ChainHandler::get_tip"],
+			Op::ApiHeader(_) => vec!["api::HeaderHandler::parse_inputs", "api::HeaderHandler::get_header_v2"],
+			Op::ApiBlock(_) => vec!["api::BlockHandler::parse_inputs", "api::BlockHandler::get_block"],
+			Op::ApiKernel(_) => vec!["api::KernelHandler::get_kernel_v2"],
+			Op::ApiPage => vec!["api::OutputHandler::get_unspent_outputs"],
+			Op::ApiPmmr => vec!["api::TxHashSetHandler::block_height_range_to_pmmr_indices"],
+			Op::ApiPoolInfo => vec!["api::PoolHandler::get_pool_size", "api::PoolHandler::get_stempool_size", "api::PoolHandler::get_unconfirmed_transactions"],
+			Op::ApiPush(_) => vec!["api::PoolHandler::push_transaction"],
+			Op::OwnerStatus => vec!["api::StatusHandler::get_status"],
+			Op::OwnerValidate => vec!["api::ChainValidationHandler::validate_chain"],
+			Op::OwnerCompact => vec!["api::ChainCompactHandler::compact_chain"],
 		}
 	}
 }
@@ -392,6 +419,102 @@ fn run_op(sh: &Shared, tid: usize, op: &Op, pi: &PeerInfo) {
 			let sz = n.pool.read().total_size();
 			note(sh, format!("pool_size:{}", sz.min(9)));
 		}
+		Op::ApiTip => {
+			let r = n.foreign.get_tip();
+			if let Ok(t) = &r {
+				// work of successively observed tips never decreases (per thread: kept in the stats map under a key of its own)
+				let mut st = sh.stats.lock().unwrap();
+				let last = st.entry(format!("zz_last_tip_{}", tid)).or_insert(0);
+				if t.total_difficulty < *last {
+					sh.fails.lock().unwrap().push(format!("api get_tip total difficulty went down: {} after {}", t.total_difficulty, *last));
+				}
+				*last = t.total_difficulty;
+			}
+			note(sh, format!("api_get_tip:{}", short(&r)));
+		}
+		Op::ApiHeader(h) => {
+			let r = n.foreign.get_header(Some(*h), None, None);
+			if let Ok(x) = &r {
+				if x.height != *h {
+					sh.fails.lock().unwrap().push(format!("api get_header(height {}) answered a header of height {}", h, x.height));
+				}
+			}
+			note(sh, format!("api_get_header:{}", short(&r)));
+		}
+		Op::ApiBlock(h) => {
+			let r = n.foreign.get_block(Some(*h), None, None);
+			if let Ok(x) = &r {
+				if x.header.height != *h {
+					sh.fails.lock().unwrap().push(format!("api get_block(height {}) answered a block of height {}", h, x.header.height));
+				}
+			}
+			note(sh, format!("api_get_block:{}", short(&r)));
+		}
+		Op::ApiKernel(t) => {
+			let ex = hex(&sh.sc.txs[*t].kernels()[0].excess.0);
+			let r = n.foreign.get_kernel(ex, None, None);
+			note(sh, format!("api_get_kernel:{}", short(&r)));
+		}
+		Op::ApiPage => {
+			// one page sequence over the unspent outputs; per call: no commitment twice, a listed unspent output has a
+			// position; over the sequence the same (commitment, position) never twice
+			let mut start = 1u64;
+			let mut seen = std::collections::BTreeSet::new();
+			let mut pages = 0;
+			loop {
+				let page = match n.foreign.get_unspent_outputs(start, None, 5, Some(false)) {
+					Ok(p) => p,
+					Err(_) => break,
+				};
+				pages += 1;
+				let mut in_call = std::collections::BTreeSet::new();
+				for o in &page.outputs {
+					if !in_call.insert(o.commit.0.to_vec()) {
+						sh.fails.lock().unwrap().push(format!("api get_unspent_outputs(start {}) lists commitment {} twice in one call", start, hex(&o.commit.0[..6])));
+					}
+					if !o.spent && !seen.insert((o.commit.0.to_vec(), o.mmr_index)) {
+						sh.fails.lock().unwrap().push(format!("api page sequence lists ({}, position {}) twice", hex(&o.commit.0[..6]), o.mmr_index));
+					}
+					if !o.spent && o.mmr_index == 0 {
+						sh.fails.lock().unwrap().push(format!("api get_unspent_outputs lists {} unspent without a position", hex(&o.commit.0[..6])));
+					}
+				}
+				if page.last_retrieved_index >= page.highest_index || page.outputs.is_empty() || pages > 40 {
+					break;
+				}
+				start = page.last_retrieved_index + 1;
+			}
+			note(sh, format!("api_page_sequence:pages={}", pages.min(9)));
+		}
+		Op::ApiPmmr => {
+			let r = n.foreign.get_pmmr_indices(1, None);
+			note(sh, format!("api_get_pmmr_indices:{}", short(&r)));
+		}
+		Op::ApiPoolInfo => {
+			let a = n.foreign.get_pool_size();
+			let b = n.foreign.get_stempool_size();
+			let c = n.foreign.get_unconfirmed_transactions();
+			note(sh, format!("api_pool_info:{}:{}:{}", short(&a), short(&b), short(&c)));
+		}
+		Op::ApiPush(t) => {
+			let r = n.foreign.push_transaction(sh.sc.txs[*t].clone(), Some(*t % 2 == 0));
+			note(sh, format!("api_push_transaction:{}", short(&r)));
+		}
+		Op::OwnerStatus => {
+			let r = n.owner.get_status();
+			note(sh, format!("owner_get_status:{}", short(&r)));
+		}
+		Op::OwnerValidate => {
+			let r = n.owner.validate_chain(true);
+			if r.is_err() {
+				sh.fails.lock().unwrap().push(format!("owner validate_chain(fast) failed mid-run: {}", short(&r)));
+			}
+			note(sh, format!("owner_validate_chain:{}", short(&r)));
+		}
+		Op::OwnerCompact => {
+			let r = n.owner.compact_chain();
+			note(sh, format!("owner_compact_chain:{}", short(&r)));
+		}
 		Op::ValidateFast => {
 			let r = n.chain.validate(true);
 			if r.is_err() {
@@ -446,7 +569,7 @@ fn main() {
 			}
 			// per-thread programs
 			let ntx = sc.txs.len();
-			let mut progs: Vec<Vec<Op>> = vec![vec![]; 6];
+			let mut progs: Vec<Vec<Op>> = vec![vec![]; 8];
 			for b in &sc.trunk {
 				progs[0].push(Op::Block(*b));
 				if xr.chance(1, 3) { progs[0].push(Op::Block(*b)); }
@@ -478,6 +601,24 @@ fn main() {
 					6 => Op::ValidateFast,
 					_ => Op::Status,
 				});
+			}
+			// api threads (increment 4): the Foreign api (readers + push_transaction = tx_pool.write()) and the Owner api
+			let top = sc.blocks.len() as u64;
+			for _ in 0..(14 + xr.below(6)) {
+				progs[6].push(match xr.below(9) {
+					0 => Op::ApiTip,
+					1 => Op::ApiHeader(1 + xr.below(8)),
+					2 => Op::ApiBlock(1 + xr.below(8)),
+					3 => Op::ApiKernel(xr.below(ntx as u64) as usize),
+					4 | 5 => Op::ApiPage,
+					6 => Op::ApiPmmr,
+					7 => Op::ApiPoolInfo,
+					_ => Op::ApiPush(xr.below(ntx as u64) as usize),
+				});
+			}
+			let _ = top;
+			for _ in 0..(5 + xr.below(3)) {
+				progs[7].push(match xr.below(4) { 0 => Op::OwnerValidate, 1 => Op::OwnerCompact, _ => Op::OwnerStatus });
 			}
 			let sim_progs: Vec<String> = progs.iter().map(|p| p.iter().flat_map(|o| o.entries()).collect::<Vec<_>>().join("+")).collect();
 			let total_ops: u64 = progs.iter().map(|p| p.len() as u64).sum();
@@ -535,7 +676,7 @@ fn main() {
 					"#ORACLE-FAIL C17 deadlock node round={} exec={} seed={}: no call completed for {} s; {} of {} calls done; calls in flight per thread: {:?}",
 					round, ex, seed, stall, last, total_ops, cur
 				));
-				out.line(&format!("conc node round={} exec={} threads=6 seed={}", round, ex, seed), "stalled");
+				out.line(&format!("conc node round={} exec={} threads=8 seed={}", round, ex, seed), "stalled");
 				out.flush();
 				std::process::exit(0);
 			}
@@ -592,14 +733,14 @@ fn main() {
 				}
 			}
 			for f in &fails {
-				out.raw(&format!("#ORACLE-FAIL C17 node round={} exec={} seed={} threads=6: {}", round, ex, seed, f));
+				out.raw(&format!("#ORACLE-FAIL C17 node round={} exec={} seed={} threads=8: {}", round, ex, seed, f));
 			}
 			out.line(&format!("conc nodesim seed={} progs={}", xr.below(1 << 30), sim_progs.join(",")), "finished");
 			out.line(
-				&format!("conc node round={} exec={} threads=6 blocks={} fork={} txs={} seed={}", round, ex, sc.blocks.len() - 1, sc.fork.len(), sc.txs.len(), seed),
+				&format!("conc node round={} exec={} threads=8 blocks={} fork={} txs={} seed={}", round, ex, sc.blocks.len() - 1, sc.fork.len(), sc.txs.len(), seed),
 				if fails.is_empty() { "ok" } else { "failed" },
 			);
-			for (k, v) in sh.stats.lock().unwrap().iter() {
+			for (k, v) in sh.stats.lock().unwrap().iter().filter(|(k, _)| !k.starts_with("zz_")) {
 				*all_stats.entry(k.clone()).or_insert(0) += v;
 			}
 			*all_stats.entry("executions".into()).or_insert(0) += 1;
